@@ -284,7 +284,13 @@ func (r *sccpRun) step(b *ssa.BasicBlock, in ssa.Instruction) bool {
 		c := cBottom
 		for i, e := range x.Edges {
 			if r.execE[[2]int{b.Preds[i].Index, b.Index}] {
-				c = cmeet(c, r.get(e))
+				ev := r.get(e)
+				// edge refinement: the predecessor branches on this very value,
+				// so on this edge it is the branch's constant
+				if ifi, ok := b.Preds[i].Instrs[len(b.Preds[i].Instrs)-1].(*ssa.If); ok && ifi.Cond == e && ev.k != 0 && b.Preds[i].Succs[0] != b.Preds[i].Succs[1] {
+					ev = cConst(constant.MakeBool(b.Preds[i].Succs[0] == b))
+				}
+				c = cmeet(c, ev)
 			}
 		}
 		return r.set(x, c)
